@@ -26,6 +26,9 @@ TermB == TLCEval([n \in DOMAIN TextsB |-> Parse(TextsB[n]).node.term])
 ASSUME \A n \in DOMAIN TextsA : Parse(TextsA[n]).ok /\ Parse(TextsA[n]).node.op = "leaf" /\ InOracle(TextsA[n])
 ASSUME \A n \in DOMAIN TextsB : Parse(TextsB[n]).ok /\ Parse(TextsB[n]).node.op = "leaf" /\ InOracle(TextsB[n])
 ASSUME LowFormsAgree
+FirstTerm == Parse(First).node.term
+LastTerm  == Parse(Last).node.term
+ASSUME Parse(First).ok /\ Parse(Last).ok /\ Parse(First).node.op = "leaf" /\ Parse(Last).node.op = "leaf"
 
 \* two-level choice (first a, then b) so that TLC's workers share the pairs of different a's
 InBlockA(x)    == \E n \in DOMAIN Blocks : x \in (Blocks[n][1])..(Blocks[n][2])
@@ -75,6 +78,12 @@ Emit == Chosen =>
         /\ (BothLic /\ b.plus /\ HasSuffix(TextsB[vB], "+")) =>
               LET twin == DropSuffix(TextsB[vB], 1)
                   want == MatchDecl(a, b) \/ MatchDecl(a, [b EXCEPT !.plus = FALSE])
+                  \* ... and with further entries that sort before and after the two (First / Last: byte-order extremes of the list)
+                  wantL == want \/ MatchDecl(a, LastTerm)
+                  wantFL == wantL \/ MatchDecl(a, FirstTerm)
               IN /\ PrintT(ToJson([k |-> "sat", e |-> TextsA[vA], a |-> <<twin, TextsB[vB]>>, sat |-> want, err |-> FALSE]))
                  /\ PrintT(ToJson([k |-> "sat", e |-> TextsA[vA], a |-> <<TextsB[vB], twin>>, sat |-> want, err |-> FALSE]))
+                 /\ PrintT(ToJson([k |-> "sat", e |-> TextsA[vA], a |-> <<twin, TextsB[vB], Last>>, sat |-> wantL, err |-> FALSE]))
+                 /\ PrintT(ToJson([k |-> "sat", e |-> TextsA[vA], a |-> <<Last, TextsB[vB], twin>>, sat |-> wantL, err |-> FALSE]))
+                 /\ PrintT(ToJson([k |-> "sat", e |-> TextsA[vA], a |-> <<First, TextsB[vB], twin, Last>>, sat |-> wantFL, err |-> FALSE]))
 =============================================================================
